@@ -610,6 +610,8 @@ class CallbackPlugin(Plugin):
         self.recording = {a.agent_id for a in mon.agents if hasattr(a, "turns") or getattr(a, "_vsim_probe", False)}
         self.ledger_plugin = LedgerPlugin()
         self.ledger_plugin.attach(mon)
+        specs = mon.ext.get("probe_specs", {}) or {}
+        self.owner_rewriters = any((sp.get("rewrite") or {}).get("owner") is not None for sp in specs.values())
 
     def on_callback(self, mon, agent, kind, log):
         mon.keepalive.append(log)
@@ -638,6 +640,12 @@ class CallbackPlugin(Plugin):
 
     def on_order_log(self, mon, log, o, mm, market, inf):
         self.truth.append(("O", log))
+        # the owner named in the record is the agent that handed the order in (nobody rewrote the account)
+        obj = inf["obj"] if inf else None
+        by = mon.returned_by.get(id(obj)) if obj is not None else None
+        if by is not None and by != log.agent_id and not self.owner_rewriters:
+            mon.viol("C11", "notified_of_foreign_order", {"owner_in_record": log.agent_id, "handed_in_by": by,
+                                                         "order_id": log.order_id, "market": mm.name})
 
     def on_cancel_log(self, mon, log, o, mm, market):
         self.truth.append(("C", log))
